@@ -14,7 +14,7 @@ import (
 // C4 unlisted fields are immutable after construction, C5 lock order / waiting under a lock.
 
 func init() {
-	registerEngine("C", []string{"C1", "C2", "C3", "C4", "C5"}, runEngineC)
+	registerEngine("C", []string{"C1", "C2", "C3", "C4", "C5", "C6"}, runEngineC)
 }
 
 // guardRow: fields of one struct type guarded by one lock. deep = the guard also covers what is reached through the
@@ -61,6 +61,10 @@ var guardTable = []guardRow{
 	{"fixtures/fx.guarded", "fixtures/fx.guarded.mu", []string{"n", "m"}, false, false},
 	{"fixtures/fx.guarded", "fixtures/fx.guarded.mu", []string{"inner"}, true, false},
 	{"fixtures/fx.rwGuarded", "fixtures/fx.rwGuarded.mu", []string{"v", "items"}, false, false},
+	{"fixtures/fx.GoodB", "fixtures/fx.GoodB.mu", []string{"keep"}, false, false},
+	{"fixtures/fx.BadBShallow", "fixtures/fx.BadBShallow.mu", []string{"keep"}, false, false},
+	{"fixtures/fx.rmw", "fixtures/fx.rmw.mu", []string{"total"}, false, false},
+	{"fixtures/fx.rmw", "fixtures/fx.rmw.mu", []string{"stats"}, true, false},
 }
 
 // confinedRow: every access to the listed fields (all fields when fields is nil) lies in functions reachable only
@@ -474,6 +478,14 @@ func usesOfValue(p *Prog, fn *ssa.Function, v ssa.Value, fk string, deep bool, l
 					}
 				}
 			}
+		case *ssa.Store:
+			if x.Addr == v && deep {
+				add(x, true, "store through the guarded pointer")
+			}
+		case *ssa.UnOp:
+			if x.X == v && x.Op == token.MUL && deep {
+				add(x, false, "load through the guarded pointer")
+			}
 		case *ssa.FieldAddr:
 			if x.X == v && deep {
 				// field of the guarded object
@@ -681,6 +693,7 @@ func runEngineC(p *Prog, o *obls) {
 	for _, pr := range la.pruned {
 		o.note("C1", "pruned:"+pr[:strings.Index(pr, ":")], "-", pr)
 	}
+	runC6(p, o, la, acc, byField)
 	runC2(p, o, la)
 	runC3(p, o, la)
 	runC4(p, o, la, wanted)
@@ -1409,4 +1422,129 @@ func deferredBefore(fn *ssa.Function, d ssa.Instruction, k string) bool {
 		}
 	})
 	return res
+}
+
+// ---- C6: read-modify-write of a guarded field happens inside one critical section -----------------------------------
+
+// runC6: a value stored to a guarded field that is computed from an earlier read of the same field must be stored
+// while the lock has been held continuously since that read; releasing the lock in between loses concurrent updates.
+func runC6(p *Prog, o *obls, la *lockAnalysis, acc []accessSite, byField map[string]guardRow) {
+	type fnField struct {
+		fn *ssa.Function
+		f  string
+	}
+	reads := map[fnField][]accessSite{}
+	writes := map[fnField][]accessSite{}
+	for _, a := range acc {
+		k := fnField{a.fn, a.field}
+		if a.write {
+			writes[k] = append(writes[k], a)
+		} else {
+			reads[k] = append(reads[k], a)
+		}
+	}
+	var keys []fnField
+	for k := range writes {
+		keys = append(keys, k)
+	}
+	sort.Slice(keys, func(i, j int) bool {
+		if keys[i].f != keys[j].f {
+			return keys[i].f < keys[j].f
+		}
+		return funcKey(keys[i].fn) < funcKey(keys[j].fn)
+	})
+	for _, k := range keys {
+		lock := byField[k.f].lock
+		// unlock sites of this lock in the function
+		var unlocks []ssa.Instruction
+		instrsOf(k.fn, func(in ssa.Instruction) {
+			if c, ok := in.(*ssa.Call); ok {
+				if op, ok := lockOpOf(&c.Call); ok && op.id == lock && (op.kind == "Unlock" || op.kind == "RUnlock") {
+					unlocks = append(unlocks, c)
+				}
+			}
+		})
+		nRMW := 0
+		var bad []string
+		seenW := map[ssa.Instruction]bool{}
+		for _, w := range writes[k] {
+			st, ok := w.at.(*ssa.Store)
+			if !ok || seenW[st] {
+				continue
+			}
+			seenW[st] = true
+			seenR := map[ssa.Instruction]bool{}
+			for _, r := range reads[k] {
+				rv, ok := r.at.(ssa.Value)
+				if !ok || seenR[r.at] {
+					continue
+				}
+				seenR[r.at] = true
+				if _, isLoad := r.at.(*ssa.UnOp); !isLoad {
+					continue
+				}
+				if !refishOrScalarDerived(p, st.Val, rv) {
+					continue
+				}
+				if !canReach(r.at, st) {
+					continue
+				}
+				nRMW++
+				for _, u := range unlocks {
+					if canReach(r.at, u) && canReach(u, st) && !canReachAvoiding(r.at, st, u) {
+						bad = append(bad, fmt.Sprintf("the value stored at %s is computed from the read at %s, but %s is released at %s in between: an update made by another goroutine in that window is overwritten",
+							p.instrPos(st), p.instrPos(r.at), lock, p.instrPos(u)))
+					}
+				}
+			}
+		}
+		if nRMW == 0 {
+			continue
+		}
+		key := fmt.Sprintf("%s@%s", k.f, funcKey(k.fn))
+		if len(bad) > 0 {
+			o.bad("C6", key, p.Pos(k.fn.Pos()), strings.Join(dedupe(bad), "; "))
+		} else {
+			o.ok("C6", key, p.Pos(k.fn.Pos()), fmt.Sprintf("%d read-modify-write dependence(s), the guard is held continuously from the read to the store", nRMW))
+		}
+	}
+}
+
+// refishOrScalarDerived: the stored value depends on the value read (through arithmetic, calls, local copies).
+func refishOrScalarDerived(p *Prog, stored, read ssa.Value) bool {
+	return p.backwardReaches(stored, func(v ssa.Value) bool { return v == read })
+}
+
+// canReachAvoiding: there is a path from a to b that does not execute instruction avoid.
+func canReachAvoiding(a, b, avoid ssa.Instruction) bool {
+	// block-level search; within a block respect instruction order
+	type node struct {
+		b   *ssa.BasicBlock
+		idx int // start index within the block
+	}
+	start := node{a.Block(), instrIndex(a) + 1}
+	seen := map[*ssa.BasicBlock]bool{}
+	var walk func(n node) bool
+	walk = func(n node) bool {
+		instrs := n.b.Instrs
+		for i := n.idx; i < len(instrs); i++ {
+			if instrs[i] == avoid {
+				return false
+			}
+			if instrs[i] == b {
+				return true
+			}
+		}
+		for _, s := range n.b.Succs {
+			if seen[s] {
+				continue
+			}
+			seen[s] = true
+			if walk(node{s, 0}) {
+				return true
+			}
+		}
+		return false
+	}
+	return walk(start)
 }
